@@ -408,12 +408,102 @@ def gen_parable() -> str:
     return "\n".join(lines)
 
 
+def gen_hook() -> str:
+    """Facts about src/dippy/dippy.py: name tables and the shape of main()."""
+    mod = parse_file("dippy.py")
+    shell_names = sorted(set(table(mod, "SHELL_TOOL_NAMES", "SHELL_TOOL_NAMES")))
+    gemini: list[str] | None = None
+    f = find_func(mod, "_detect_mode_from_input")
+    if f is not None:
+        for n in ast.walk(f):
+            if isinstance(n, ast.Compare) and isinstance(n.left, ast.Name) and n.left.id == "tool_name" and len(n.ops) == 1 and isinstance(n.ops[0], ast.In):
+                gemini = const_strs(n.comparators[0])
+    if gemini is None:
+        MISSING.append("geminiNames")
+        gemini = []
+    bypass: list[list[str]] = []
+    main_f = find_func(mod, "main")
+    shape = {"tries": 0, "handlers": [], "before_try": [], "after_try": 0, "handler_prints_empty": True}
+    if main_f is not None:
+        for n in ast.walk(main_f):
+            if isinstance(n, ast.Compare) and isinstance(n.left, ast.Name) and n.left.id == "permission_mode" and len(n.ops) == 1 and isinstance(n.ops[0], ast.In):
+                b = const_strs(n.comparators[0])
+                if b is not None:
+                    bypass.append(b)
+        body = [st for st in main_f.body if not (isinstance(st, ast.Expr) and isinstance(st.value, ast.Constant))]
+        seen_try = False
+        for st in body:
+            if isinstance(st, ast.Try):
+                shape["tries"] += 1
+                seen_try = True
+                for hnd in st.handlers:
+                    shape["handlers"].append(ast.unparse(hnd.type) if hnd.type is not None else "<bare>")
+                    # the handler must print json.dumps({}) and must not re-raise / exit
+                    src = ast.unparse(hnd)
+                    if "print(json.dumps({}))" not in src or "raise" in src or "exit" in src:
+                        shape["handler_prints_empty"] = False
+            elif not seen_try:
+                shape["before_try"].append(ast.unparse(st))
+            else:
+                shape["after_try"] += 1
+    else:
+        MISSING.append("dippy.main")
+    if not bypass or any(b != bypass[0] for b in bypass):
+        MISSING.append("bypassModes")
+    bypass_modes = bypass[0] if bypass else []
+    # the entry script: `from dippy.dippy import main` then `main()` as the last statements
+    entry_ok = False
+    try:
+        with open(os.path.join(REPO, "bin", "dippy-hook"), encoding="utf-8") as fh:
+            em = ast.parse(fh.read())
+        last = em.body[-1]
+        entry_ok = isinstance(last, ast.Expr) and isinstance(last.value, ast.Call) and isinstance(last.value.func, ast.Name) and last.value.func.id == "main" and not any(isinstance(x, ast.Try) for x in em.body)
+    except (OSError, SyntaxError, IndexError):
+        MISSING.append("bin/dippy-hook")
+    lines = [
+        "-- GENERATED by harness/gen_tables.py from src/dippy/dippy.py and bin/dippy-hook. Do not edit.",
+        "namespace Dippy.Generated",
+        "",
+        "/-- `SHELL_TOOL_NAMES`, sorted -/",
+        "def shellToolNames : List String := " + lean_list(shell_names),
+        "",
+        "/-- the Gemini tool-name tuple in `_detect_mode_from_input` -/",
+        "def geminiNames : List String := " + lean_list(gemini),
+        "",
+        "/-- the bypass permission modes tested in `main` (both sites agree) -/",
+        "def bypassModes : List String := " + lean_list(bypass_modes),
+        "",
+        "/-- number of `try` statements at the top level of `main` -/",
+        "def mainTryCount : Nat := %d" % shape["tries"],
+        "",
+        "/-- the exception classes its handlers catch, in order -/",
+        "def mainHandlers : List String := " + lean_list(shape["handlers"]),
+        "",
+        "/-- statements of `main` before the `try` (docstring excluded) -/",
+        "def mainBeforeTry : List String := " + lean_list(shape["before_try"]),
+        "",
+        "/-- statements of `main` after the `try` -/",
+        "def mainAfterTry : Nat := %d" % shape["after_try"],
+        "",
+        "/-- every handler prints `{}` and neither re-raises nor exits -/",
+        "def mainHandlersPrintEmpty : Bool := " + ("true" if shape["handler_prints_empty"] else "false"),
+        "",
+        "/-- bin/dippy-hook ends in a bare `main()` call with no try of its own -/",
+        "def entryCallsMain : Bool := " + ("true" if entry_ok else "false"),
+        "",
+        "end Dippy.Generated",
+        "",
+    ]
+    return "\n".join(lines)
+
+
 def main() -> int:
     changed = []
     files = {
         "Unicode.lean": gen_unicode(),
         "Tables.lean": gen_tables(),
         "Parable.lean": gen_parable(),
+        "Hook.lean": gen_hook(),
     }
     miss = (
         "-- GENERATED. Tables the translator could not find where it expected them.\n"
